@@ -750,6 +750,14 @@ theorem Heap.run_spec {L : Layout} : ∀ (ops : List HOp) (h : Heap) (a : Abs), 
 
 theorem absRel_self (h : Heap) : AbsRel h h.abs := ⟨fun _ => rfl, fun _ => rfl⟩
 
+theorem Heap.run_append (L : Layout) : ∀ (pre rest : List HOp) (h : Heap),
+    Heap.run L h (pre ++ rest) = ((Heap.run L (Heap.run L h pre).1 rest).1, (Heap.run L h pre).2 ++ (Heap.run L (Heap.run L h pre).1 rest).2)
+  | [], _, _ => rfl
+  | op :: pre, rest, h => by
+    simp only [List.cons_append, Heap.run]
+    rw [Heap.run_append L pre rest (h.step L op).1]
+
+
 /-- the executable heap invariant is the invariant of the theorems -/
 theorem heapOK_of_okb {n : Nat} {h : Heap} (hb : h.okb n = true) : HeapOK n h := by
   simp only [Heap.okb, List.all_eq_true, Bool.and_eq_true, beq_iff_eq] at hb
